@@ -1,10 +1,65 @@
 """Contracts for pyubx2.ubxreader.UBXReader and pyubx2.socket_wrapper.SocketWrapper (DESIGN.md 4.3)."""
+import z3
+
 from pvc.contracts import Contract, Loop
+from pvc.values import SInt, SBool, mk_bool
 
 R = "pyubx2.ubxreader.UBXReader."
+W = "pyubx2.socket_wrapper.SocketWrapper."
 
 PARSE_MODE = "(getinputmode_spec(message) if msgmode == 3 else msgmode)"
 PARSE_PAYLOAD_NONE = "message[4:6] == b'\\x00\\x00'"
+
+
+def reader_object(style="file", quitonerror=None, handler="either"):
+    """symbolic UBXReader over the abstract stream AS (ghost data/n/pos); every option symbolic"""
+
+    def build(ex, name):
+        from pvc import extract
+        from pvc.models_io import StreamModel, LoggerModel, HandlerModel
+        st = ex.st
+        cls = extract.load_module("pyubx2.ubxreader")[0].UBXReader
+        sty = style
+        if sty == "either":
+            sty = "file" if st.choice(2, "stream-style") == 0 else "socket"
+        S = StreamModel.new(ex, sty)
+        f = {"_stream": S}
+
+        def ivar(nm, lo=None, hi=None):
+            e = z3.Int(nm)
+            if lo is not None:
+                st.assume(mk_bool(z3.And(e >= lo, e <= hi)))
+            st.inputs[nm] = ("int", e)
+            return SInt(e)
+
+        f["_protfilter"] = ivar("protfilter", 0, 7)
+        f["_quitonerror"] = quitonerror if quitonerror is not None else ivar("quitonerror", 0, 2)
+        f["_validate"] = ivar("validate", 0, 1)
+        f["_parsebf"] = ivar("parsebf", 0, 1)
+        f["_labelmsm"] = ivar("labelmsm", 1, 2)
+        f["_msgmode"] = ivar("msgmode", 0, 3)
+        pe = z3.Bool("parsing")
+        st.inputs["parsing"] = ("bool", pe)
+        f["_parsing"] = SBool(pe)
+        f["_logger"] = LoggerModel.new(ex)
+        if handler == "either":
+            has = st.choice(2, "errorhandler") == 1
+        else:
+            has = bool(handler)
+        f["_errorhandler"] = HandlerModel.new(ex) if has else None
+        st.inputs["errorhandler"] = ("const", has)
+        return st.alloc("obj", cls, fields=f)
+
+    return build
+
+
+READ_BYTES_EOF = "size > 0 and (self._stream.n - old(self._stream.pos) == 0 if self._stream.filestyle " \
+                 "else self._stream.n - old(self._stream.pos) < size)"
+READ_BYTES_SHORT = "self._stream.filestyle and 0 < self._stream.n - old(self._stream.pos) < size"
+
+
+READ_LINE_NOLF = "old(self._stream.pos) < self._stream.n and " \
+                 "self._stream.data[eol(self._stream.data, old(self._stream.pos)) - 1] != 0x0A"
 
 
 def install(reg):
@@ -23,3 +78,149 @@ def install(reg):
                 "UBXMessageError": None, "UBXTypeError": None},
         raises_iff={"UBXParseError": "msgmode not in (0, 1, 2, 3)"},
         modifies=[]))
+    reg.add(Contract(
+        R + "_read_bytes", params={"self": reader_object("either"), "size": "nat"},
+        ensures=[("content", "result == self._stream.data[old(self._stream.pos):old(self._stream.pos) + size]"),
+                 ("exactly-size", "len(result) == size"),
+                 ("advance", "self._stream.pos == old(self._stream.pos) + size")],
+        raises={"EOFError": READ_BYTES_EOF, "UBXStreamError": READ_BYTES_SHORT},
+        raises_iff={"EOFError": READ_BYTES_EOF, "UBXStreamError": READ_BYTES_SHORT},
+        ensures_exc=[("eof-only-when-exhausted", "implies(self._stream.filestyle, self._stream.pos == self._stream.n)"),
+                     ("socket-keeps-position", "implies(not self._stream.filestyle, "
+                                               "self._stream.pos == old(self._stream.pos))")],
+        modifies=["self._stream.pos"]))
+    reg.add(Contract(
+        R + "_read_line", params={"self": reader_object("either")},
+        ensures=[("to-first-lf", "self._stream.pos == eol(self._stream.data, old(self._stream.pos))"),
+                 ("content", "result == self._stream.data[old(self._stream.pos):self._stream.pos]"),
+                 ("lf-terminated", "result[-1:] == b'\\n'")],
+        raises={"EOFError": "old(self._stream.pos) == self._stream.n", "UBXStreamError": READ_LINE_NOLF},
+        raises_iff={"EOFError": "old(self._stream.pos) == self._stream.n", "UBXStreamError": READ_LINE_NOLF},
+        ensures_exc=[("consumed-to-end", "self._stream.pos == self._stream.n")],
+        modifies=["self._stream.pos"]))
+
+
+# ---------------------------------------------------------------------------------------------------
+# SocketWrapper over the ghost socket (C10).  Representation invariant (structural in the builder):
+#   self._buffer == sock.total[c : sock.d]      c = st_pos(self) = bytes already handed to the reader
+# ---------------------------------------------------------------------------------------------------
+def wrapper_object():
+    def build(ex, name):
+        from pvc import extract
+        from pvc.models_io import SocketModel
+        from pvc.values import SBytes
+        st = ex.st
+        cls = extract.load_module("pyubx2.socket_wrapper")[0].SocketWrapper
+        sock = SocketModel.new(ex)
+        srec = st.rec(sock)
+        c = z3.Int("consumed0")
+        st.assume(mk_bool(z3.And(c >= 0, c <= srec["d"])))
+        st.inputs["consumed0"] = ("int", c)
+        bs = z3.Int("bufsize")
+        st.assume(mk_bool(bs >= 1))
+        st.inputs["bufsize"] = ("int", bs)
+        buf = SBytes.view(srec["total"], c, z3.simplify(srec["d"] - c), "bytearray")
+        return st.alloc("obj", cls, fields={"_socket": sock, "_bufsize": SInt(bs), "_buffer": buf})
+
+    return build
+
+
+SW_INV = "self._buffer == st_data(self)[st_pos(self):self._socket.d]"
+SW_READ_FULL = "(len(result) == num and result == st_data(self)[old(st_pos(self)):old(st_pos(self)) + num] " \
+               "and st_pos(self) == old(st_pos(self)) + num)"
+SW_READ_NONE = "(result == b'' and st_pos(self) == old(st_pos(self)) and st_n(self) - old(st_pos(self)) < num)"
+
+
+SW_POS0 = "old(st_pos(self))"
+SW_FULL = f"st_n(self) - {SW_POS0} >= num"
+
+
+def install_socket(reg):
+    reg.add(Contract(
+        W + "_recv", params={"self": wrapper_object()},
+        ensures=[("buffer-grows-by-the-chunk",
+                  "self._buffer == old(self._buffer) + st_data(self)[old(self._socket.d):self._socket.d]"),
+                 ("grew-or-exhausted",
+                  "(result == True and old(self._socket.d) < self._socket.d <= old(self._socket.d) + self._bufsize "
+                  "and self._socket.d <= self._socket.n) or "
+                  "(result == False and self._socket.d == old(self._socket.d) and self._socket.d == self._socket.n)"),
+                 ("invariant", SW_INV)],
+        raises={}, modifies=["self._buffer", "self._socket.d"], returns="bool"))
+    reg.add(Contract(
+        W + "read", params={"self": wrapper_object(), "num": "nat"},
+        ensures=[("result", f"result == (st_data(self)[{SW_POS0}:{SW_POS0} + num] if {SW_FULL} else b'')"),
+                 ("buffer", f"self._buffer == st_data(self)[({SW_POS0} + num if {SW_FULL} else {SW_POS0}):self._socket.d]"),
+                 ("delivered", f"old(self._socket.d) <= self._socket.d <= self._socket.n and "
+                               f"({SW_POS0} + num <= self._socket.d if {SW_FULL} else self._socket.d == self._socket.n)"),
+                 ("exactly-n-or-nothing", f"{SW_READ_FULL} or {SW_READ_NONE}"),
+                 ("invariant", SW_INV)],
+        raises={}, modifies=["self._buffer", "self._socket.d"], returns="bytes",
+        loops={1: Loop(ghost={"c0": "st_pos(self)", "d0": "self._socket.d"}, keep=("c0", "d0"),
+                       heap={"self._socket.d": "int"},
+                       inv=[("buffer", "self._buffer == st_data(self)[c0:self._socket.d]"),
+                            ("delivered", "d0 <= self._socket.d <= self._socket.n and c0 <= self._socket.d")],
+                       decreases="self._socket.n - self._socket.d")}))
+    reg.add(Contract(
+        W + "readline", params={"self": wrapper_object()},
+        ensures=[("to-first-lf", f"st_pos(self) == eol(st_data(self), {SW_POS0})"),
+                 ("content", f"result == st_data(self)[{SW_POS0}:st_pos(self)]"),
+                 ("invariant", SW_INV)],
+        raises={}, modifies=["self._buffer", "self._socket.d"], returns="bytes",
+        loops={1: Loop(ghost={"c0": "st_pos(self)", "c": "st_pos(self)"}, keep=("c0",),
+                       ghost_update={"c": "c0 + len(line)"},
+                       heap={"self._socket.d": "int"},
+                       kinds={"data": "bytes", "c": "int"},
+                       inv=[("line", "line == st_data(self)[c0:c]"),
+                            ("buffer", "self._buffer == st_data(self)[c:self._socket.d]"),
+                            ("bounds", "c0 <= c and c <= self._socket.d and self._socket.d <= self._socket.n"),
+                            ("no-lf-so-far", "no_lf(st_data(self), c0, c)")],
+                       decreases="self._socket.n - c")}))
+
+
+def read_result_model(ex, args, kwargs):
+    """UBXReader.read as seen by __next__: some pair (raw, parsed); each component may be None"""
+    from pvc.models_io import ParsedSym
+    from pvc.values import SBytes, Base, fresh_name
+    st = ex.st
+    w = st.choice(4, "read-result")
+    raw = None if w in (0, 1) else SBytes.view(Base("rawitem"), 0, 8)
+    parsed = None if w in (0, 2) else ParsedSym(z3.Int(fresh_name("pid")), "ubx")
+    st.ghost["read_result"] = (raw, parsed)
+    return (raw, parsed)
+
+
+def s_last_read(ex, i):
+    return ex.st.ghost["read_result"][i]
+
+
+def install_iter(reg):
+    reg.spec("last_read", s_last_read, None)
+    reg.add(Contract(
+        R + "__next__", params={"self": reader_object("file")},
+        ensures=[("returns-the-item", "result[0] == last_read(0) and result[1] == last_read(1)"),
+                 ("item-not-empty", "not (last_read(0) is None and last_read(1) is None)")],
+        raises={"StopIteration": "last_read(0) is None and last_read(1) is None"},
+        modifies=[]))
+    reg.add(Contract(
+        R + "__init__",
+        params={"self": lambda ex, name: ex.bm.new_object(__import__("pyubx2").UBXReader),
+                "datastream": stream_or_socket, "msgmode": "int", "validate": "int", "protfilter": "int",
+                "quitonerror": "int", "parsebitfield": "boolint", "labelmsm": "int", "bufsize": "nat",
+                "parsing": "bool", "errorhandler": ("const", None)},
+        requires=["bufsize >= 1"],
+        ensures=[("options-stored", "self._protfilter == protfilter and self._quitonerror == quitonerror and "
+                                    "self._validate == validate and self._parsebf == parsebitfield and "
+                                    "self._labelmsm == labelmsm and self._msgmode == msgmode and self._parsing == parsing"),
+                 ("stream-is-the-bytes-given", "st_data(self._stream) == st_data_of_input(datastream) and "
+                                               "st_pos(self._stream) == old(st_pos_of_input(datastream))")],
+        raises={"UBXStreamError": "msgmode not in (0, 1, 2, 3)"},
+        raises_iff={"UBXStreamError": "msgmode not in (0, 1, 2, 3)"},
+        modifies=["self.*", "datastream.d"]))
+
+
+def stream_or_socket(ex, name):
+    """the reader is given either a file-like stream or a socket"""
+    from pvc.models_io import StreamModel, SocketModel
+    if ex.st.choice(2, "datastream-kind") == 0:
+        return StreamModel.new(ex, "file")
+    return SocketModel.new(ex)
